@@ -14,10 +14,11 @@ import (
 )
 
 // C12: Close at every point of a connection's life. Scenario classes:
-//   fin-after-retried-handshake: the handshake needed a retransmission, then the
-//     peer closes at once: its FIN must make the local calls fail.
-//   close-points: Close during the handshake, idle, with Send / Recv blocked, with a
-//     full window, during a retransmission; by one side, both, twice, concurrently.
+//
+//	fin-after-retried-handshake: the handshake needed a retransmission, then the
+//	  peer closes at once: its FIN must make the local calls fail.
+//	close-points: Close during the handshake, idle, with Send / Recv blocked, with a
+//	  full window, during a retransmission; by one side, both, twice, concurrently.
 func TestGenC12(t *testing.T) {
 	r := newRng(seed())
 	o := newOut(t, "c12_hist.txt")
@@ -29,10 +30,10 @@ func TestGenC12(t *testing.T) {
 
 	// ---- (1) FIN right after a handshake that needed a retry ----
 	for _, pat := range [][2][]string{
-		{{}, {"drop"}},                 // server's first SYN echo lost: client times out and resends
-		{{"drop"}, {}},                 // client's first SYN lost
-		{{}, {"keep"}},                 // duplicated echo
-		{{}, {}},                       // clean
+		{{}, {"drop"}}, // server's first SYN echo lost: client times out and resends
+		{{"drop"}, {}}, // client's first SYN lost
+		{{}, {"keep"}}, // duplicated echo
+		{{}, {}},       // clean
 	} {
 		for _, closer := range []int{0, 1} {
 			id++
@@ -303,7 +304,7 @@ func TestGenC12(t *testing.T) {
 			setup    bool
 		}
 		var outs []outc
-		for _, point := range []string{"idle", "send-blocked"} {
+		for _, point := range []string{"idle", "send-blocked", "mid-resend"} {
 			for _, who := range []int{0, 1} {
 				wg.Add(1)
 				go func(point string, who int) {
@@ -312,13 +313,16 @@ func TestGenC12(t *testing.T) {
 					defer func() { mu.Lock(); outs = append(outs, oc); mu.Unlock() }()
 					ctx, cancel := context.WithCancel(context.Background())
 					defer cancel()
-					var blocked atomic.Bool
+					var blocked, dropAll atomic.Bool
 					ab, ba := make(chan []byte, 4096), make(chan []byte, 4096)
 					mk := func(out, in chan []byte) (func(context.Context, []byte) error, func(context.Context) ([]byte, error)) {
 						return func(ctx context.Context, b []byte) error {
 								if blocked.Load() {
 									<-ctx.Done()
 									return ctx.Err()
+								}
+								if dropAll.Load() {
+									return nil
 								}
 								select {
 								case out <- append([]byte{}, b...):
@@ -357,6 +361,14 @@ func TestGenC12(t *testing.T) {
 						return
 					}
 					oc.setup = true
+					if point == "mid-resend" {
+						// the closer's packet is lost, its retransmission (1 s later) then hangs in the transport
+						dropAll.Store(true)
+						_ = conns[who].Send([]byte("lost"))
+						time.Sleep(200 * time.Millisecond) // first transmission done (and dropped)
+						blocked.Store(true)
+						time.Sleep(1300 * time.Millisecond) // the resend timer (1 s) has fired: queue.resend sits in the transport
+					}
 					blocked.Store(true)
 					if point == "send-blocked" {
 						go func() { _ = conns[who].Send([]byte("x")) }()
@@ -392,6 +404,66 @@ func TestGenC12(t *testing.T) {
 				return fmt.Sprintf("real time, transport send hangs until its context ends: Close did not return within 4 s (FIN send timeout 1 s); waited %v", oc.took)
 			})
 		}
+	}
+	// ---- (2c) the mailbox connections (ClientConn / ServerConn over an in-memory relay, real time): when one side
+	// closes, the FIN reaches the peer, whose blocked Read fails long before its keepalive (10 s) would notice ----
+	{
+		var wg sync.WaitGroup
+		var mu sync.Mutex
+		for _, closer := range []string{"client", "server"} {
+			wg.Add(1)
+			go func(closer string) {
+				defer wg.Done()
+				rr := r.sub(len(closer) + 4242)
+				c, s, cleanup, err := kitPair(rr)
+				if cleanup != nil {
+					defer cleanup()
+				}
+				mu.Lock()
+				q.stat("mailbox_close_cases", 1)
+				mu.Unlock()
+				if err != nil {
+					mu.Lock()
+					q.fail("c12:setup-handshake-failed", "mailbox pair: "+err.Error())
+					mu.Unlock()
+					return
+				}
+				a, b := c, s // a closes, b is blocked in Read
+				if closer == "server" {
+					a, b = s, c
+				}
+				// some traffic first, so both directions are past the handshake
+				_, _ = a.Write([]byte("hello"))
+				buf := make([]byte, 16)
+				_ = b.SetReadDeadline(time.Now().Add(5 * time.Second))
+				if _, err := b.Read(buf); err != nil {
+					mu.Lock()
+					q.fail("c12:setup-handshake-failed", "mailbox pair first read: "+err.Error())
+					mu.Unlock()
+					return
+				}
+				_ = b.SetReadDeadline(time.Time{})
+				done := make(chan error, 1)
+				go func() { _, e := b.Read(buf); done <- e }()
+				time.Sleep(100 * time.Millisecond)
+				t0 := time.Now()
+				_ = a.Close()
+				var rerr error
+				returned := false
+				select {
+				case rerr = <-done:
+					returned = true
+				case <-time.After(4 * time.Second):
+				}
+				took := time.Since(t0)
+				mu.Lock()
+				q.check(returned && rerr != nil, "c12:mailbox-peer-not-told:closer="+closer, func() string {
+					return fmt.Sprintf("%s closed its mailbox connection over a working relay; the peer's blocked Read returned=%v err=%v after %v (keepalive alone would take about 10 s)", closer, returned, rerr, took)
+				})
+				mu.Unlock()
+			}(closer)
+		}
+		wg.Wait()
 	}
 	// ---- (3) giving up during the handshake: cancelling the context makes the constructors return ----
 	for _, side := range []int{0, 1} {
